@@ -40,6 +40,27 @@ CLAIMED = {
         note='Trusted: CrossHair/z3 and its regex engine, glue G1-G3. int->float conversion uses the real-number model '
              '(rounding/overflow outside). bool-as-number and NaN bounds are unspecified and not judged.',
         ref='4 (C08)'),
+    'C13': dict(
+        text='Bounded proof by symbolic execution over the annotated catalogue (Omitted for two caller classes, '
+             'RedactedBlot/RedactedHash with and without regex on struct fields, union tags, inherited fields, aliases used '
+             'directly / nullable / in lists / as map values / nested): (a) real encoder under every subset of caller '
+             'classes equals the reference encoder that drops omitted fields (a refusal to encode a hidden tag is '
+             'accepted), (b) strict decoding of a document carrying an omitted field/tag raises exactly when the class is '
+             'not held, (c) with redaction on/off the output equals the reference redaction (blot mask, regex groups '
+             'joined by ***, digest or digest (groups)) at every annotated position.',
+        note='Trusted: refmodel/wire.py (reference encoder + reference redaction from the C13 statement), glue G6 (md5 '
+             'replaced by a fixed digest under the engine; replays use the real md5), CrossHair regex engine. Redaction '
+             'harnesses explore one top-level field at a time, strings <= 3 over {a,b,x,y,space}.',
+        ref='4 (C13)'),
+    'C14': dict(
+        text='Bounded proof by symbolic execution of the generated python_client methods (regenerated at check time) for '
+             'the 11 catalogue routes: symbolic argument values, every optional parameter passed or omitted, required '
+             'parameters positional or by keyword, symbolic request() result: exactly one request with the ROUTES object, '
+             'namespace, upload body, an argument whose every field equals the passed value or the spec default '
+             '(tag defaults incl. cross-namespace), result returned (None for Void), DeprecationWarning iff deprecated.',
+        note='Partial: method naming/docstrings, the _to_file helper and routes outside the catalogue are outside. '
+             'Trusted: CrossHair/z3, glue G1-G3; validity of argument values is not the subject (invalid ones are skipped).',
+        ref='4 (C14)'),
     'C18': dict(
         text='Bounded proof by symbolic execution, two clauses only. Containment: every path string over {., /, a} up to '
              'length 4/6 through output_to_relative_path, copy_to_path and the Swift writer with the file system replaced '
@@ -81,8 +102,6 @@ PENDING = {
     'C07': 'check under construction in this session (claimed in DESIGN.md section 4)',
     'C10': 'check under construction in this session (claimed in DESIGN.md section 4)',
     'C11': 'check under construction in this session (claimed in DESIGN.md section 4)',
-    'C13': 'check under construction in this session (claimed in DESIGN.md section 4)',
-    'C14': 'check under construction in this session (claimed in DESIGN.md section 4)',
 }
 
 
